@@ -140,3 +140,43 @@ def family(two=False, seeds=None):
             text, z, p = render(m, idx)
             out.append((idx, s['name'], desc, text, z, p)); idx += 1
     return out
+
+# ---- era chains: whole-year UNTIL (the only multi-era shape the basic scope admits) x every pairing of RULES kinds
+_POL = {'N': US, 'S': AU}
+_TAG = {'N': 'N', 'S': 'S', '-': 'F', '1:00': 'H'}
+
+def _era_line(stdoff, rules, k):
+    tag = 'E%d%s' % (k, _TAG[rules])
+    fmt = (tag + '%sT') if rules in _POL else (tag + 'T')
+    if rules == 'S' and k % 2:
+        fmt = '+%02d/+%02d' % (10 + k, 11 + k)       # slash format on some named eras
+    return '%s\t%s\t%s' % (stdoff, ('K' + rules) if rules in _POL else rules, fmt)
+
+def era_chains():
+    """-> (rules_text, [(family, signature, description, zone_text, zone_name)]) — exhaustive products, no sampling:
+    chain2: 6 STDOFF pairs x 4x4 RULES kinds x 4 UNTIL years; chain3: 3 STDOFF patterns x 4^3 RULES kinds x 2 UNTIL pairs"""
+    rl = []
+    for pn, rules in _POL.items():
+        for r in rules:
+            to = r['to'] if r['to'] in ('max', 'only') else str(r['to'])
+            rl.append('Rule\tK%s\t%s\t%s\t-\t%s\t%s\t%s\t%s\t%s' % (pn, r['frm'], to, r['mon'], r['on'], r['at'], r['save'], r['letter']))
+    kinds = ['S', 'N', '-', '1:00']
+    out = []
+    def add(fam, eras, untils):
+        z = 'K/c%d' % len(out)
+        lines = []
+        for k, (so, ru) in enumerate(eras):
+            body = _era_line(so, ru, k) + ('\t%s' % untils[k] if k < len(untils) else '')
+            lines.append(('Zone\t%s\t' % z if k == 0 else '\t\t\t') + body)
+        sig = '>'.join(ru for _, ru in eras)
+        desc = '%s %s until %s' % (' '.join(so for so, _ in eras), sig, ','.join(untils))
+        out.append((fam, sig, desc, '\n'.join(lines), z))
+    for a, b in (('9:30', '9:30'), ('9:30', '10:30'), ('10:30', '9:30'), ('-3:30', '-4:30'), ('-4:30', '-3:30'), ('-11:00', '13:00')):
+        for r0, r1 in itertools.product(kinds, repeat=2):
+            for y in ('2005', '2008', '2012', '2037'):
+                add('chain2', [(a, r0), (b, r1)], [y])
+    for pat in (('9:30', '10:30', '9:30'), ('-3:30', '-4:30', '-4:30'), ('5:45', '5:45', '6:00')):
+        for rs in itertools.product(kinds, repeat=3):
+            for ys in (('2008', '2009'), ('2007', '2010')):
+                add('chain3', list(zip(pat, rs)), list(ys))
+    return '\n'.join(rl), out
